@@ -284,7 +284,7 @@ func (s *Sim) runPaused(a Op, pause func(c world.Call, after bool) bool, next fu
 				}
 				select {
 				case <-doneB:
-				case <-time.After(20 * time.Second):
+				case <-time.After(180 * time.Second): // watchdog only
 					s.Inconclusive = append(s.Inconclusive, "interleaved operation did not return (possible deadlock): "+b.String()+" during "+a.String())
 					return
 				}
@@ -297,7 +297,7 @@ func (s *Sim) runPaused(a Op, pause func(c world.Call, after bool) bool, next fu
 	}
 	select {
 	case <-doneA:
-	case <-time.After(20 * time.Second):
+	case <-time.After(180 * time.Second): // watchdog only
 		s.Inconclusive = append(s.Inconclusive, "paused operation did not return after resume: "+a.String())
 		return
 	}
